@@ -15,7 +15,13 @@ ActsCommitFail == {a \in Only({"setenc", "inserth"}) : a.t = "f1"}
                   \cup {a \in Only({"select", "disk"}) : a.t \in {"f1", NewFile}}
                   \cup Only({"create", "commit", "rollback"})
 \* creating tables, failing and not, and what is left in the directory
-ActsCreate == Only({"create", "createas", "insert1", "select", "commit", "rollback", "disk", "renamevu", "dropcol"})
+\* (a small family: a random walk has to take two or three particular steps in a row - create, a failing statement
+\* on the new table, a look at it - which it does not often enough among a hundred actions)
+ActsCreate == {a \in Only({"insert1", "insertbad", "insertbad2", "replace", "updatefail", "addfail", "setenc", "select", "disk",
+                            "renamevu", "dropcol", "delete", "inserth"}) : a.t = NewFile /\ a.k \in {0, 1}}
+              \cup {a \in Only({"insertsel"}) : a.t = NewFile /\ a.u = "f1"}
+              \cup {a \in Only({"createas"}) : a.u = "f1"}
+              \cup Only({"create", "commit", "rollback"})
 \* reads of every form around commits of another process
 ActsReads == Only({"select", "selectsub", "selectfn", "selectagg", "env", "update", "insertsel", "updatejoin", "commit", "rollback"})
 Depth6 == TLCGet("level") <= 6
